@@ -58,7 +58,13 @@ static void steps_of(int s, std::vector<Step>& out) {
     const Op& op = OPS[oi];
     if (op.builder && op.observer) continue;        // observers: phase A + terminal layer
     if (!op.binary) { Ctx cx{st.dim, st.cls, -1, -1}; if (op.ok(cx)) out.push_back(Step{'o', (int)oi, -1}); continue; }
-    for (int o : POOLO) { Ctx cx{st.dim, st.cls, ST[o].cls, ST[o].dim}; if (op.ok(cx)) out.push_back(Step{'o', (int)oi, o}); }
+    int taken = 0;
+    for (int o : POOLO) {
+      Ctx cx{st.dim, st.cls, ST[o].cls, ST[o].dim};
+      if (!op.ok(cx)) continue;
+      if (op.args.fam == "simplify" && ++taken > 40) break;     // first 40 operands of the pool (BFS order)
+      out.push_back(Step{'o', (int)oi, o});
+    }
   }
 }
 static std::string step_name(const Step& t) {
@@ -313,7 +319,11 @@ static int shape_main(int argc, char** argv) {
             for (size_t k = 0; k < u.size(); ++k) { int c = CL.classify(u[k]); if (!cls_empty(c)) CUR_PIECES.push_back(c); }
           }
           TrigIn ti{t.kind == 'o' ? &OPS[t.idx] : 0, t.kind == 'q' ? &QS[t.idx] : 0, ST[s].cls, t.operand >= 0 ? ST[t.operand].cls : -1, std::string("crash:") + signame(sig)};
-          report_violation(site_of(nm), std::string("crash:") + signame(sig), trigger_for(ti), input_json(s, nm, t.operand), signame(sig), "normal return");
+          std::string trg = trigger_for(ti);
+          count(CNT_VIOL); count(CNT_USER);
+          violcap().cap = std::max(violcap().cap, 40);      // crash records are written by the parent only: 40 per group, all are counted
+          if (violcap().admit("crash|" + site_of(nm) + "|" + signame(sig) + "|" + trg))
+            report_violation(site_of(nm), std::string("crash:") + signame(sig), trg, input_json(s, nm, t.operand), signame(sig), "normal return");
           return;
         }
         base += steps.size();
@@ -337,7 +347,7 @@ static int shape_main(int argc, char** argv) {
   J extra; extra.str("shape", SHAPE_NAME).str("mode", CFG.c04 ? "C04" : "C03").num("phaseA_states", ST.size()).num("phaseA_transitions", TRANS_A).num("value_classes_phaseA", CLS_DEPTH.size())
     .num("representatives", REPS.size()).num("representatives_with_transformers", nrep_ops).num("operand_pool_predicates", POOLQ.size()).num("operand_pool_transformers", POOLO.size())
     .num("ops", OPS.size()).num("queries", QS.size()).num("constructor_sources", SRCS.size()).num("builder_constraints", BM.size())
-    .num("oracle_comparisons", counter(CNT_CHECKS)).num("violating_cases", counter(CNT_VIOL)).num("items_skipped_by_deadline", counter(CNT_SKIPPED))
+    .num("oracle_comparisons", counter(CNT_CHECKS)).num("violating_cases", counter(CNT_VIOL)).num("confirmed_crashes_or_hangs", counter(CNT_USER)).num("items_skipped_by_deadline", counter(CNT_SKIPPED))
     .num("cases_skipped_oracle_resource_limit", counter(CNT_REFCRASH)).arr("signatures_reached", sigs);
   std::string bound = std::string(SHAPE_NAME) + " " + (CFG.c04 ? "C04" : "C03") + ": dims " + std::to_string(CFG.mindim) + ".." + std::to_string(CFG.maxdim) + ", phase A depth " + std::to_string(CFG.depth)
     + " (" + CFG.consts + " constants), transformers on classes of depth<=" + std::to_string(CFG.depth_ops) + ", what=" + CFG.what + ", one representative per (value class, status signature)";
